@@ -660,11 +660,17 @@ class Interp:
             self.havoc_path(pth, d, env, fq)
         if out != "ok":
             env.vars["result"] = None
+            env.vars["raised"] = out
             for gname, gcl in c.effects.items():
                 self.ghost[gname] = self.eval_spec(gcl, env)
-            cls = self.resolve_exc_class(out, fn.module if fn else None)
-            exc = self.make_exc(cls, ())
-            env.vars["raised"] = cls.name
+            fac = getattr(self.reg, "exception_factories", {}).get(out)
+            if fac is not None:
+                exc = fac(self)
+                cls = exc.cls
+            else:
+                cls = self.resolve_exc_class(out, fn.module if fn else None)
+                exc = self.make_exc(cls, ())
+                env.vars["raised"] = cls.name
             env.vars["result"] = None
             for k, cl in c.raises_ensures.items():
                 self.path.assume(truthy(self.eval_spec(cl, env, olds)))
@@ -673,6 +679,8 @@ class Interp:
         # result
         if c.pure:
             result = self.pure_app(c, fq, [env.vars.get(n) for n in c.args])
+        elif c.returns is not None and not hasattr(c.returns, "make"):
+            result = c.returns(self, env.vars)  # custom constructor of the abstract result
         elif c.returns is not None:
             result = c.returns.make(self, self.path.fresh(f"ret:{fq.split(':')[-1]}"))
         else:
@@ -1249,14 +1257,16 @@ class Interp:
             if k is None:
                 src = self.eval(v, env)
                 if isinstance(src, dict):
-                    d.update(src)
+                    for k2, v2 in src.items():
+                        self.store_subscript(d, k2, v2)
                 else:
                     raise OutOfSubset("** of non-dict")
             else:
                 kk = self.eval(k, env)
-                if is_sym(kk):
-                    raise OutOfSubset("dict literal with symbolic key")
-                d[kk] = self.eval(v, env)
+                if is_sym(kk) or self.B.has_symkeys(d):
+                    self.store_subscript(d, kk, self.eval(v, env))
+                else:
+                    d[kk] = self.eval(v, env)
         return d
 
     def e_Lambda(self, n, env):
@@ -1385,14 +1395,18 @@ class Interp:
                     pass
             return z_or(*[self.py_eq(x, item) for x in container])
         if isinstance(container, dict):
-            if not is_sym(item):
+            if not is_sym(item) and not self.B.has_symkeys(container):
                 try:
                     return item in container
                 except TypeError:
                     self.raise_builtin("TypeError", "unhashable")
+            if not is_sym(item) and item in container:
+                return True
             return z_or(*[self.py_eq(k, item) for k in container])
         if isinstance(container, self.B.DictView):
             return self.contains(container.materialize(), item)
+        if isinstance(container, self.B.MixedSeq):
+            return z_or(*[self.contains(x, item) if k == "seq" else self.py_eq(x, item) for k, x in container.parts])
         if isinstance(container, str) and isinstance(item, str):
             return item in container
         if isinstance(container, (str, SStr)) and isinstance(item, (str, SStr)):
@@ -1565,6 +1579,11 @@ class Interp:
         fenv = env
         while fenv is not None and fenv.gen_items is None:
             fenv = fenv.parent
+        if isinstance(v, SymSeq):
+            fenv.gen_items.append(self.B.SeqChunk(v))
+            if fenv.yield_cb is not None:
+                raise OutOfSubset("yield from a symbolic sequence under a lazy consumer")
+            return None
         items = self.iterate_all(v, lazy_exc=True)
         for x in items:
             fenv.gen_items.append(x)
@@ -1602,6 +1621,10 @@ class Interp:
                 return v
             if obj.cls.is_exception and name in ("__traceback__",):
                 return None
+            if obj.cls.is_exception and name == "with_traceback":
+                return BuiltinFn("with_traceback", lambda it, a, k, _o=obj: _o)
+            if obj.cls.is_exception and name == "add_note":
+                return BuiltinFn("add_note", lambda it, a, k: None)
             self.raise_builtin("AttributeError", name)
         if isinstance(obj, VClass):
             if obj.is_enum:
@@ -1697,8 +1720,13 @@ class Interp:
 
     def store_subscript(self, obj, key, value):
         if isinstance(obj, dict):
-            if is_sym(key):
-                raise OutOfSubset("dict store with symbolic key")
+            if is_sym(key) or self.B.has_symkeys(obj):
+                k = self.B._dict_lookup(self, obj, key)
+                if k is self.B._MISSING:
+                    obj[key] = value
+                else:
+                    obj[k] = value
+                return
             try:
                 obj[key] = value
             except TypeError:
@@ -1779,6 +1807,18 @@ class Interp:
         if universal:
             return SBool(z3.ForAll([j], z3.Implies(rng, body)))
         return SBool(z3.Exists([j], z3.And(rng, body)))
+
+    def s_forall_int(self, n, env):
+        lam = n.args[0]
+        var = lam.args.args[0].arg
+        j = z3.Int(self.path.fresh(var))
+        e = Env(parent=env, module=env.module)
+        e.vars[var] = SInt(j)
+        body = _zb(truthy(self.eval(lam.body, e)))
+        return SBool(z3.ForAll([j], body))
+
+    def s_to_str(self, n, env):
+        return self.B.str_(self, self.eval(n.args[0], env))
 
     def s_forall(self, n, env):
         return self._quant(n, env, True)
